@@ -606,7 +606,7 @@ def check_C20(rep, tier):
         if i % 4001 == 0:
             rep.sample({"kind": s["kind"], "input": s["input"], "spec": {"out": s["out"], "type": s["typ"], "payload": s["payload"]}})
 
-    st = run_tlc("MC_C20", f"MC_C20_{tier}.cfg", "c20", on_scn=on_scn)
+    st = run_tlc("MC_C20", f"MC_C20_{tier}.cfg", "c20", on_scn=on_scn, java_opts="-Xss512m")
     require_clean(st, "MC_C20")
     rep.add_tlc(st, "MC_C20")
     rep.vacuity(["AStripPrefix", "AReadLen1", "AReadType", "AReadLen2", "AReadPayload"])
@@ -1043,6 +1043,13 @@ def check_C17(rep, tier):
     _wire(rep, tier, "C17", ("rule", "link", "layout", "pred", "stmt"), judge,
           env={"ITV_DAMAGE_LEAVES": "16" if tier == "quick" else "80"})
     rep.cov["evaluations"] *= 48
+    # the link directory as a channel: the bytes of a signed link file (as written, padded, ill-formed UTF-8 in place of
+    # a character, things before / after) count as evidence exactly when the slice is a validly signed block
+    res = last_json(run_itv(["record", "C17file", "1"]))
+    rep.cov["link_directory_channel_variants"] = res["n"]
+    rep.cov["evaluations"] += res["n"]
+    for b in res["bad"]:
+        rep.mismatch({"kind": "channel_dependent", "doc": "link file in the link directory", "variant": b.get("variant")}, {"case": b})
     rep.assumptions += ["serde_json's four entry points are the channels; escape spelling produced by the harness writer"]
 
 
